@@ -6,7 +6,7 @@ GROUPS = ["C18"]
 BUDGET = {"quick": 600, "thorough": 12000}
 LEVEL_TEXT = ("Lean theorem C18_full_holds: for every entry list, filter and index sequence Intn can deliver, the "
               "contacted servers are a permutation without repetition of the distinct wanted entries; tied to the "
-              "code by running the real discovery.ServerList() with the shuffle's random indices re-derived, so the exact order is compared")
+              "code by running the real discovery.ServerList() with the shuffle's random indices re-derived, so the exact order is compared; c18.filter (a plugged-in discovery module supplies the list, the server argument is the /regex/ filter) and c18.reconnect (what a re-connecting client contacts over time: listed host:port addresses only)")
 TRUSTED = ["Lean 4 kernel", "axioms: propext, Quot.sound, Classical.choice (at most)", "overlay harness + dtmodel driver + this diff",
            "modelled not verified: strings.Split, bufio.Scanner line splitting (both exercised by the differential run), math/rand (indices are inputs), Go regexp"]
 ASSUMPTIONS = ["rand.Intn(n) returns an index below n"]
